@@ -34,6 +34,7 @@ import (
 type c05Ev struct {
 	id, cr, seq int
 	parents     []int
+	fork        bool // generator only: this event opened a new branch of its creator
 }
 
 func c05ID(n int) hash.Event {
@@ -138,12 +139,14 @@ func c05Run(in []string) []string {
 		ForklessCausePairs: fcsize, HighestBeforeSeqSize: uint(vcsize), LowestAfterSeqSize: uint(vcsize)}})
 	events := map[hash.Event]dag.Event{}
 	num := map[hash.Event]int{}
-	index.Reset(vals, memorydb.New(), func(id hash.Event) dag.Event {
+	db := memorydb.New() // the persistent store: survives a restart of the index (op RI)
+	getEvent := func(id hash.Event) dag.Event {
 		if e, ok := events[id]; ok {
 			return e
 		}
 		return nil
-	})
+	}
+	index.Reset(vals, db, getEvent)
 	dagi := &adapters.VectorToDagIndexer{Index: index}
 	qi := ancestor.NewQuorumIndexer(vals, dagi, c05Diff(diffk))
 
@@ -189,6 +192,47 @@ func c05Run(in []string) []string {
 		case "D":
 			out = "d" + strconv.Itoa(dropPending())
 			vu.Stat("drop")
+		case "RI":
+			// restart: a NEW vecfc.Index (fresh caches, possibly other capacities, BranchesInfo not loaded)
+			// Reset over the SAME database, as abft.Bootstrap does; the old object and its unflushed
+			// writes are abandoned
+			lost := len(order) - flushedLen
+			for _, id := range order[flushedLen:] {
+				delete(events, c05ID(id))
+				delete(num, c05ID(id))
+			}
+			order = order[:flushedLen]
+			index = vecfc.NewIndex(crit, vecfc.IndexConfig{Caches: vecfc.IndexCacheConfig{
+				ForklessCausePairs: c05Atoi(op[1]), HighestBeforeSeqSize: uint(c05Atoi(op[2])), LowestAfterSeqSize: uint(c05Atoi(op[2]))}})
+			index.Reset(vals, db, getEvent)
+			dagi.Index = index
+			vu.Stat("restart_index")
+			out = "r" + strconv.Itoa(lost)
+		case "DB":
+			// the bytes in the persistent store for the last k flushed events: tables S (HighestBefore),
+			// s (LowestAfter), b (EventBranch); key = table prefix ++ 32-byte event id
+			fl := order[:flushedLen]
+			k := c05Atoi(op[1])
+			if k > 0 && k < len(fl) {
+				fl = fl[len(fl)-k:]
+			}
+			parts := make([]string, 0, len(fl))
+			for _, id := range fl {
+				hid := c05ID(id)
+				get := func(prefix string) string {
+					v, err := db.Get(append([]byte(prefix), hid.Bytes()...))
+					if err != nil {
+						return "ERR"
+					}
+					if v == nil {
+						return "~"
+					}
+					return vu.Hex(v)
+				}
+				parts = append(parts, strconv.Itoa(id)+"="+get("S")+":"+get("s")+":"+get("b"))
+			}
+			vu.Stat("db_dump")
+			out = "b" + strings.Join(parts, "/")
 		case "E", "A":
 			if len(op) < 4 {
 				break
@@ -483,7 +527,7 @@ func c05GenDag(r *rand.Rand, nv, nev, ncheat int, forkP float64) *c05Dag {
 		} else if len(d.tips[c]) > 0 {
 			sp = d.tips[c][r.Intn(len(d.tips[c]))]
 		}
-		ev := c05Ev{id: len(d.evs) + 1, cr: c, seq: 1}
+		ev := c05Ev{id: len(d.evs) + 1, cr: c, seq: 1, fork: forked && len(d.byCr[c]) > 0}
 		if sp >= 0 {
 			ev.seq = d.evs[sp].seq + 1
 			ev.parents = append(ev.parents, d.evs[sp].id)
@@ -706,7 +750,7 @@ func c05Malform(r *rand.Rand, d *c05Dag, order []c05Ev) []c05Ev {
 }
 
 var c05FcSizes = []int{0, 1, 200, 200, 7}
-var c05VcSizes = []int{0, 64, 1638, 1638}
+var c05VcSizes = []int{0, 1, 64, 1638, 1638}
 
 func init() {
 	vu.Register("C05", &vu.Prop{
@@ -755,6 +799,14 @@ func init() {
 							case 2:
 								in = append(in, ";", "D", ";", "Q", strconv.Itoa(k), "0", ";", "V", "3", ";", "M", "0")
 								j = pendingFrom - 1 // re-add everything that was lost
+							case 3:
+								// restart over the flushed DB (sometimes right after a Drop), other cache capacities
+								if r.Intn(3) == 0 {
+									in = append(in, ";", "D")
+								}
+								in = append(in, ";", "RI", strconv.Itoa(c05FcSizes[r.Intn(len(c05FcSizes))]), strconv.Itoa(c05VcSizes[r.Intn(len(c05VcSizes))]),
+									";", "Q", strconv.Itoa(k), "0", ";", "V", "3", ";", "M", "0", ";", "DB", "4")
+								j = pendingFrom - 1
 							}
 						}
 						in = append(in, ";", "F", ";", "Q", "0", "0", ";", "V", "0", ";", "M", "0")
@@ -775,6 +827,10 @@ func init() {
 							in = append(in, c05EvOp(x)...)
 						}
 						in = append(in, c05EvOp(e)...)
+						if (e.fork && r.Intn(2) == 0) || r.Intn(25) == 0 {
+							// restart right after a fork was first observed (BranchesInfo must come back from the DB)
+							in = append(in, ";", "RI", strconv.Itoa(c05FcSizes[r.Intn(len(c05FcSizes))]), strconv.Itoa(c05VcSizes[r.Intn(len(c05VcSizes))]), ";", "V", "2", ";", "DB", "2")
+						}
 						in = append(in, ";", "Q", strconv.Itoa(k), strconv.Itoa(r.Intn(2)))
 						if j%6 == 5 {
 							in = append(in, ";", "V", "3", ";", "M", "3")
